@@ -122,6 +122,9 @@ class Interp:
         self.desc = copy.deepcopy(game)            # the caller's description; objects alias ITS lists
         self.print0 = {f: structure(self.pristine[f]) for f in FIELDS}
         self.objects = []
+        self.built_in = []                         # per object: the epoch (number of caller edits) it was built in
+        self.epoch = 0
+        self.earlier = {}                          # epoch -> {mode: reference outcome} of descriptions before an edit
         self.first = {}                            # mode -> first outcome
         self.v = Verdict()
         self.solves = 0
@@ -152,14 +155,28 @@ class Interp:
         if mode:
             self.seen_pruned = True
 
-    def compare(self, mode, out, what):
+    @staticmethod
+    def same(out, ref):
+        if out[0] == "exc" and ref[0] == "exc" and out[1] == ref[1] and \
+                (out[2].lower() in ref[2].lower() or ref[2].lower() in out[2].lower()):
+            return True     # same error; a batch entry may wrap the text in its own wording
+        return out == ref
+
+    def compare(self, mode, out, what, built_in=None):
         ref = self.first.get(mode)
         if ref is None:
             self.first[mode] = out
             return
-        if out[0] == "exc" and ref[0] == "exc" and out[1] == ref[1] and \
-                (out[2].lower() in ref[2].lower() or ref[2].lower() in out[2].lower()):
-            return          # same error; a batch entry may wrap the text in its own wording
+        if self.same(out, ref):
+            return
+        if built_in is not None and built_in != self.epoch:
+            # an object built before the caller edited the description may hold the caller's lists (then it must
+            # solve the edited description, checked above) or its own copy of them (then it must solve the
+            # description as it was when the object was built) - the property fixes neither, a mixture is wrong
+            alt = self.earlier.get(built_in, {}).get(mode)
+            if alt is not None and self.same(out, alt):
+                self.v.cls("older_object_solved_the_description_it_was_built_from")
+                return
         if out != ref:
             a = "result" if out[0] == "ok" else f"{out[1]}: {out[2][:80]}"
             b = "result" if ref[0] == "ok" else f"{ref[1]}: {ref[2][:80]}"
@@ -191,13 +208,14 @@ class Interp:
         what = "/".join(str(x) for x in op)
         if kind == "new":
             self.objects.append(self.build(bool(op[1])))
+            self.built_in.append(self.epoch)
         elif kind == "solve":
             if not self.objects:
                 return True
             obj = self.objects[op[1] % len(self.objects)]
             mode = bool(obj.prune_states)
             self.note_solve(mode)
-            self.compare(mode, self.outcome(obj.solve), what)
+            self.compare(mode, self.outcome(obj.solve), what, built_in=self.built_in[op[1] % len(self.objects)])
         elif kind == "flip":
             if not self.objects:
                 return True
@@ -218,6 +236,14 @@ class Interp:
             movable = [s_ for s_ in range(n) if s_ not in absorbing]
             if not absorbing or not movable:
                 return True
+            # references for the description as it is now (fresh objects, both modes), kept for older objects
+            before = dict(self.first)
+            for mode in (True, False):
+                if mode not in before:
+                    self.note_solve(mode)
+                    before[mode] = self.outcome(lambda: self.build(mode).solve())
+            self.earlier[self.epoch] = before
+            self.epoch += 1
             s_ = movable[op[1] % len(movable)]
             lst = d["transition_list"][s_]
             k_ = op[2] % len(lst)
